@@ -56,6 +56,9 @@ type whOp struct {
 	Tree   string   `json:"tree,omitempty"`
 	P      string   `json:"p,omitempty"`
 	PodNS  string   `json:"pod_ns,omitempty"`
+	// LoseCommit: the API server does not persist this request after admission (generated fault, like the "commit-fails"
+	// fault of the fault tape, but placed by the generator inside a retry scenario)
+	LoseCommit bool `json:"lose_commit,omitempty"`
 }
 
 // mq is one committed ElasticQuota as the API server stores it.
@@ -154,6 +157,101 @@ func (whEngine) Generate(p *sim.Plan, g *sim.Rng) {
 	var ops []whOp
 	npods := 0
 	for len(ops) < n {
+		if cfg.Conc && g.Bool(0.12) {
+			// a racing pair aimed at one parent: its deletion against a request that puts a child below it. Whichever is
+			// admitted first must make the other one fail; the "echo" in front keeps the pair together in Execute's pairing.
+			var cands []string
+			for _, pn := range whNames {
+				if q := have[pn]; q != nil && q.IsPar {
+					kids := false
+					for _, c := range have {
+						if c.Parent == pn {
+							kids = true
+						}
+					}
+					if !kids {
+						cands = append(cands, pn)
+					}
+				}
+			}
+			xn := whNames[g.Intn(len(whNames))]
+			if len(cands) > 0 {
+				pn := cands[g.Intn(len(cands))]
+				pq := have[pn]
+				var other *whOp
+				var after *mq
+				if cur := have[xn]; xn != pn && cur != nil && cur.Parent != pn {
+					other = &whOp{K: "update", Q: xn, Parent: pn, IsPar: cur.IsPar, Min: cur.Min, Max: cur.Max, NS: cur.NS, Tree: cur.Tree}
+					after = &mq{Name: xn, Parent: pn, Tree: cur.Tree, IsPar: cur.IsPar, Min: cur.Min, Max: cur.Max, NS: cur.NS}
+				} else if xn != pn && cur == nil {
+					var dims []string
+					for d := range pq.Max {
+						dims = append(dims, d)
+					}
+					sort.Strings(dims)
+					max := whGenRL(g, dims, nil)
+					min := whRL{}
+					for _, d := range dims {
+						min[d] = pq.Min[d] / int64(1+g.Intn(4))
+						if max[d] < min[d] {
+							max[d] = min[d] + g.I64n(5)
+						}
+					}
+					other = &whOp{K: "create", Q: xn, Parent: pn, Min: min, Max: max, Tree: pq.Tree}
+					after = &mq{Name: xn, Parent: pn, Tree: pq.Tree, Min: min, Max: max}
+				}
+				if other != nil {
+					del := whOp{K: "delete", Q: pn}
+					if g.Bool(0.5) {
+						ops = append(ops, whOp{K: "echo"}, del, *other)
+						delete(have, pn)
+					} else {
+						ops = append(ops, whOp{K: "echo"}, *other, del)
+						tryApply(xn, after)
+					}
+					continue
+				}
+			}
+		}
+		if len(p.Faults) > 0 && g.Bool(0.08) {
+			// retry after a lost commit: a re-parenting update is admitted but not persisted, the client then sends ANOTHER
+			// update of the same quota (old object = what is stored) and finally the old parent is deleted
+			var xs []string
+			for _, xn := range whNames {
+				if q := have[xn]; q != nil && q.Parent != whRoot && have[q.Parent] != nil {
+					xs = append(xs, xn)
+				}
+			}
+			var pars []string
+			for _, pn := range whNames {
+				if q := have[pn]; q != nil && q.IsPar {
+					pars = append(pars, pn)
+				}
+			}
+			if len(xs) > 0 && len(pars) > 0 {
+				xn := xs[g.Intn(len(xs))]
+				cur := have[xn]
+				p2 := pars[g.Intn(len(pars))]
+				if g.Bool(0.3) {
+					p2 = whRoot
+				}
+				if p2 != xn && p2 != cur.Parent {
+					lost := whOp{K: "update", Q: xn, Parent: p2, IsPar: cur.IsPar, Min: cur.Min, Max: cur.Max, NS: cur.NS, Tree: cur.Tree, LoseCommit: true}
+					var dims []string
+					for d := range cur.Max {
+						dims = append(dims, d)
+					}
+					sort.Strings(dims)
+					retry := whOp{K: "update", Q: xn, Parent: cur.Parent, IsPar: cur.IsPar, Min: whGenRL(g, dims, cur.Max), Max: cur.Max, NS: cur.NS, Tree: cur.Tree}
+					ops = append(ops, lost, retry)
+					tryApply(xn, &mq{Name: xn, Parent: cur.Parent, Tree: cur.Tree, IsPar: cur.IsPar, Min: retry.Min, Max: cur.Max, NS: cur.NS})
+					if g.Bool(0.7) {
+						ops = append(ops, whOp{K: "delete", Q: cur.Parent})
+					}
+					continue
+				}
+			}
+		}
 		x := g.Intn(100)
 		name := whNames[g.Intn(len(whNames))]
 		switch {
@@ -329,6 +427,12 @@ type whSim struct {
 	admitted  map[string]int // quota -> version of the latest admitted (accepted) request
 	phantom   bool           // some accepted request was never committed
 	admSeq    int            // number of admissions completed (accepted or rejected)
+	// quotas whose entry in the webhook's topology is known to differ from the committed object because of a recorded
+	// defect, until the webhook itself rewrites the entry: unhealed = an admitted request on it was never committed;
+	// staleEcho = an echo older than the latest admitted request overwrote it
+	nsAdmitted map[string]int  // namespace -> version of the latest admitted request that binds or unbinds it
+	unhealed   map[string]bool // value true: the entry can never be rewritten by a later request (see markUnhealed)
+	staleEcho  map[string]bool
 }
 
 func whScheme() *runtime.Scheme {
@@ -368,14 +472,56 @@ func topoString(t *QuotaTopologySummary) string {
 	return sb.String()
 }
 
+// markUnhealed: an admitted request on op.Q was not committed. The webhook rewrites a quota's entry from a later request only
+// on the full update / delete path, and takes the namespaces to unbind from the request's old object, not from its own
+// record: the entry is rewritable (value false) only when the lost request was an update that kept the namespaces.
+func (s *whSim) markUnhealed(op *whOp, cur *mq) {
+	permanent := op.K != "update" || cur == nil || fmt.Sprint(cur.NS) != fmt.Sprint(op.NS)
+	if old, ok := s.unhealed[op.Q]; ok {
+		permanent = permanent || old
+	}
+	s.unhealed[op.Q] = permanent
+	s.retag()
+}
+
+// retag keeps the two history tags equal to "some quota's topology entry is currently corrupted by the recorded defect".
+func (s *whSim) retag() {
+	if len(s.unhealed) > 0 {
+		s.r.Tag("commit-failed-after-admission")
+	} else {
+		s.r.Untag("commit-failed-after-admission")
+	}
+	if len(s.staleEcho) > 0 {
+		s.r.Tag("stale-echo-overwrite")
+	} else {
+		s.r.Untag("stale-echo-overwrite")
+	}
+}
+
 func (s *whSim) deliverEcho(k int) {
 	for i := 0; i < k && len(s.echo) > 0; i++ {
 		ev := s.echo[0]
 		s.echo = s.echo[1:]
 		// an echo older than the latest admitted request for the same quota overwrites the webhook's newer view
-		if ev.ver < s.admitted[ev.name] {
-			s.r.Tag("stale-echo-overwrite")
+		stale := ev.ver < s.admitted[ev.name]
+		// the echo handlers also bind / unbind the namespaces named by the event's objects, whoever owns them by now: an
+		// echo older than the latest admitted request that touched one of those namespaces (of ANY quota) is stale too
+		for _, o := range []*v1alpha1.ElasticQuota{ev.old, ev.new} {
+			if o == nil {
+				continue
+			}
+			for _, ns := range extension.GetAnnotationQuotaNamespaces(o) {
+				if ev.ver < s.nsAdmitted[ns] {
+					stale = true
+				}
+			}
 		}
+		if stale {
+			// not withdrawn before the next restart: a stale delete echo also drops the quota's children links, which no
+			// later event of the quota itself restores
+			s.staleEcho[ev.name] = true
+		}
+		s.retag()
 		switch ev.kind {
 		case "add":
 			s.qt.OnQuotaAdd(ev.new)
@@ -393,7 +539,7 @@ func (s *whSim) deliverEcho(k int) {
 }
 
 func (whEngine) Execute(r *sim.Run) {
-	s := &whSim{r: r, committed: map[string]*mq{}, pods: map[string]string{}, admitted: map[string]int{}}
+	s := &whSim{r: r, committed: map[string]*mq{}, pods: map[string]string{}, admitted: map[string]int{}, unhealed: map[string]bool{}, staleEcho: map[string]bool{}, nsAdmitted: map[string]int{}}
 	r.Plan.GetCfg(&s.cfg)
 	var ops []whOp
 	r.Plan.GetOps(&ops)
@@ -445,6 +591,8 @@ func (whEngine) Execute(r *sim.Run) {
 			}
 			s.phantom = false
 			s.admitted = map[string]int{}
+			s.unhealed, s.staleEcho, s.nsAdmitted = map[string]bool{}, map[string]bool{}, map[string]int{}
+			s.retag()
 			r.Event("restart")
 			r.Probe("restart")
 			r.OpDone()
@@ -484,6 +632,9 @@ func (s *whSim) request(op *whOp) {
 	}
 	before := topoString(s.qt.getQuotaTopologyInfo())
 	seqAtStart := s.admSeq
+	// the verdict is attributable to the recorded defect when some entry was corrupted at ANY time of the validation
+	// window: the tags are widened to (state at the start) or (state now) until this request's checks are done
+	dirtyAtStart := len(s.unhealed) > 0
 	var err error
 	var obj *v1alpha1.ElasticQuota
 	switch op.K {
@@ -506,6 +657,10 @@ func (s *whSim) request(op *whOp) {
 	case "delete":
 		err = s.qt.ValidDeleteQuota(cur.obj)
 	}
+	if dirtyAtStart {
+		r.Tag("commit-failed-after-admission")
+	}
+	defer s.retag()                       // (not reached when a check fails: Fail aborts the run)
 	undisturbed := s.admSeq == seqAtStart // no other admission completed while this one was being validated
 	s.admSeq++
 	mySeq := s.admSeq
@@ -534,6 +689,15 @@ func (s *whSim) request(op *whOp) {
 	r.Probe("accepted-" + op.K)
 	s.ver++
 	s.admitted[op.Q] = s.ver
+	// namespaces this admitted request binds or unbinds (the webhook records both at admission time)
+	for _, ns := range op.NS {
+		s.nsAdmitted[ns] = s.ver
+	}
+	if cur != nil {
+		for _, ns := range cur.NS {
+			s.nsAdmitted[ns] = s.ver
+		}
+	}
 	// the API server's commit step
 	if op.K == "create" && cur != nil {
 		// AlreadyExists is detected by storage after admission: the webhook must have rejected it
@@ -543,17 +707,46 @@ func (s *whSim) request(op *whOp) {
 		// the stored object changed while the request was in admission (a concurrent request committed first): the API
 		// server answers 409 / AlreadyExists after admission, nothing is persisted
 		s.phantom = true
-		r.Tag("commit-failed-after-admission")
+		s.markUnhealed(op, cur)
 		r.Probe("commit-conflict-with-concurrent-request")
 		r.Event("commit conflict")
 		return
 	}
-	if f := r.Fault("commit", "commit-fails"); f != "" {
+	if f := r.Fault("commit", "commit-fails"); f != "" || op.LoseCommit {
+		if op.LoseCommit {
+			r.Probe("generated-lost-commit")
+		}
 		// another admission plugin / a 409 on a stale resourceVersion / storage error: admitted but never persisted, no watch event
 		s.phantom = true
-		r.Tag("commit-failed-after-admission")
+		s.markUnhealed(op, cur)
 		r.Event("commit failed")
 		return
+	}
+	// an admitted AND committed request rewrites the quota's whole entry (object, parent link, namespaces) from the
+	// request itself: whatever an earlier failed commit or stale echo left there is gone
+	// an admitted AND committed request that takes the full path (a delete, or an update that differs from the stored
+	// object in one of the fields the webhook compares) rewrites the quota's entry from the request
+	healed := false
+	if permanent, ok := s.unhealed[op.Q]; ok && !permanent {
+		full := op.K == "delete"
+		if op.K == "update" && cur != nil {
+			np := extension.GetParentQuotaName(obj)
+			full = cur.Parent != np || cur.IsPar != op.IsPar || cur.Tree != obj.Labels[extension.LabelQuotaTreeID] ||
+				fmt.Sprint(cur.NS) != fmt.Sprint(op.NS) || fmt.Sprint(whToRL(cur.Min)) != fmt.Sprint(whToRL(op.Min)) || fmt.Sprint(whToRL(cur.Max)) != fmt.Sprint(whToRL(op.Max))
+			if fmt.Sprint(cur.NS) != fmt.Sprint(op.NS) {
+				full = false // (conservative) namespaces are unbound by the request's old object
+			}
+		}
+		if full {
+			delete(s.unhealed, op.Q)
+			r.Probe("entry-healed-by-later-committed-request")
+			healed = true
+		} else {
+			// the FIRST committed request after the loss decides: a request the webhook lets through without rewriting the
+			// entry is followed by its echo, which overwrites the recorded object but not the stale parent link; nothing
+			// later repairs that
+			s.unhealed[op.Q] = true
+		}
 	}
 	switch op.K {
 	case "create", "update":
@@ -582,6 +775,7 @@ func (s *whSim) request(op *whOp) {
 		s.echo = append(s.echo, whEvent{"delete", cur.obj, nil, s.ver, op.Q})
 	}
 	s.checkWellFormed(op)
+	_ = healed
 }
 
 // checkWellFormed is the statement of C15 evaluated on the committed objects only.
@@ -688,8 +882,8 @@ func whKeys(m whRL) []string {
 // checkConverged: once every echo is delivered (and nothing admitted was left uncommitted) the webhook's record
 // names exactly the committed quotas with their committed parents.
 func (s *whSim) checkConverged() {
-	if s.phantom {
-		return
+	if len(s.unhealed) > 0 {
+		return // (recorded finding) an admitted request that was never committed is still recorded in the topology
 	}
 	s.r.OracleEval()
 	t := s.qt.getQuotaTopologyInfo()
